@@ -23,7 +23,7 @@ Proof.
   assert (G : forall s, flat_map (fun l => match wl l with
                                           | WOk => []
                                           | WEio => [mkWR (report_due m (lag pos l) it) 1 0 pos]
-                                          | WErr => [mkWR (report_due m (lag pos l) it) 0 1 pos]
+                                          | WErr | WShort => [mkWR (report_due m (lag pos l) it) 0 1 pos]
                                           end) (seq s nl) = []).
   { induction nl as [|n IH]; intro s; simpl; [reflexivity|]. rewrite H. apply IH. }
   apply G.
@@ -32,7 +32,7 @@ Qed.
 Lemma level_reports_nonzero m lag it pos wl nl : Forall (fun w => rep_nonzero w = true) (level_reports m lag it pos wl nl).
 Proof.
   unfold level_reports. apply Forall_forall. intros w Hin. apply in_flat_map in Hin. destruct Hin as [l [_ Hin]].
-  destruct (wl l); [destruct Hin | destruct Hin as [<-|[]]; reflexivity | destruct Hin as [<-|[]]; reflexivity].
+  destruct (wl l); [destruct Hin | destruct Hin as [<-|[]]; reflexivity | destruct Hin as [<-|[]]; reflexivity | destruct Hin as [<-|[]]; reflexivity].
 Qed.
 
 Lemma level_reports_mono_due lag it pos wl nl :
@@ -40,7 +40,7 @@ Lemma level_reports_mono_due lag it pos wl nl :
 Proof.
   unfold level_reports. generalize (seq 0 nl) as ls. induction ls as [|l t IH]; [reflexivity|].
   cbn [flat_map]. rewrite filter_app, IH, app_nil_r.
-  destruct (wl l); cbn [filter]; [reflexivity | |];
+  destruct (wl l); cbn [filter]; [reflexivity | | |];
     unfold is_due, report_due; cbn [wr_due]; rewrite Nat.leb_refl; reflexivity.
 Qed.
 
@@ -428,7 +428,7 @@ Proof. intros [i [E B]]. unfold recorded_healthy. rewrite E, B. simpl. apply and
 Lemma level_reports_pos m lag it pos wl nl w : In w (level_reports m lag it pos wl nl) -> wr_pos w = pos.
 Proof.
   unfold level_reports. intro H. apply in_flat_map in H. destruct H as [l [_ H]].
-  destruct (wl l); [destruct H | destruct H as [<-|[]]; reflexivity | destruct H as [<-|[]]; reflexivity].
+  destruct (wl l); [destruct H | destruct H as [<-|[]]; reflexivity | destruct H as [<-|[]]; reflexivity | destruct H as [<-|[]]; reflexivity].
 Qed.
 
 Section Safe.
@@ -509,6 +509,61 @@ Proof.
   assert (B : bad_at (ro_content (w_run r)) p).
   { apply (failed_writes_marked hashf bs nlev o now fs faults wf m lag stripes stop 0 [] [] c par 0 0 0 ND); [intros x [] | intros x [] | exact Hp]. }
   split; [exact B | apply bad_not_healthy; exact B].
+Qed.
+
+(* ---------------------------------------------------------------------------------------------------------------- *)
+(* parity_write accepts a pwrite iff the whole block was transferred; the pre-hash phase fails on any read problem    *)
+(* ---------------------------------------------------------------------------------------------------------------- *)
+Lemma classify_pwrite_ok bs r : classify_pwrite bs r = WOk <-> r = PwCount bs.
+Proof.
+  split.
+  - destruct r as [n|[|]]; simpl; try discriminate. destruct (N.eqb n bs) eqn:E; [|discriminate]. apply N.eqb_eq in E. subst. reflexivity.
+  - intros ->. simpl. rewrite N.eqb_refl. reflexivity.
+Qed.
+Lemma classify_short_reported bs n m lag it pos nl l :
+  n <> bs -> l < nl ->
+  In pos (map wr_pos (level_reports m lag it pos (fun k => if Nat.eqb k l then classify_pwrite bs (PwCount n) else WOk) nl)).
+Proof.
+  intros Hn Hl. unfold level_reports. apply in_map_iff.
+  exists (mkWR (report_due m (lag pos l) it) 0 1 pos). split; [reflexivity|].
+  apply in_flat_map. exists l. split; [apply in_seq; lia|]. rewrite Nat.eqb_refl. simpl.
+  destruct (N.eqb n bs) eqn:E; [apply N.eqb_eq in E; contradiction | left; reflexivity].
+Qed.
+
+Lemma hash_step_counts a x : h_nerr a + h_nsilent a + h_nio a <= h_nerr (hash_step a x) + h_nsilent (hash_step a x) + h_nio (hash_step a x).
+Proof. unfold hash_step. destruct (h_bailed a); [lia|]. destruct x; simpl; lia. Qed.
+Lemma hash_fold_counts l : forall a, h_nerr a + h_nsilent a + h_nio a <=
+  h_nerr (fold_left hash_step l a) + h_nsilent (fold_left hash_step l a) + h_nio (fold_left hash_step l a).
+Proof. induction l as [|x t IH]; intro a; simpl; [lia|]. pose proof (hash_step_counts a x). pose proof (IH (hash_step a x)). lia. Qed.
+Definition hash_inv (a : hout) : Prop := h_bailed a = true -> 0 < h_nerr a + h_nsilent a + h_nio a.
+(* any block of the pre-hash phase that is not read-and-matching makes the command fail, wherever it is: either it is reached and
+   counted, or an earlier one stopped the phase and was counted *)
+Theorem prehash_error_fails outs : (exists x, In x outs /\ x <> HOk) -> hash_failing (hash_phase outs) = true.
+Proof.
+  intros [x [Hin Hx]]. unfold hash_failing, hash_phase.
+  assert (G : forall l a, hash_inv a -> In x l -> 0 < h_nerr (fold_left hash_step l a) + h_nsilent (fold_left hash_step l a) + h_nio (fold_left hash_step l a)).
+  { induction l as [|y t IH]; intros a Ha H; [destruct H|]. simpl. destruct H as [->|H].
+    - pose proof (hash_fold_counts t (hash_step a x)) as M.
+      assert (0 < h_nerr (hash_step a x) + h_nsilent (hash_step a x) + h_nio (hash_step a x)).
+      { unfold hash_step. destruct (h_bailed a) eqn:Eb; [apply Ha; exact Eb|]. destruct x; simpl; try lia. contradiction. }
+      lia.
+    - apply IH; [|exact H]. unfold hash_inv, hash_step. destruct (h_bailed a) eqn:Eb; [exact Ha|]. destruct y; simpl; intro Hb; try discriminate Hb; try lia; rewrite Eb in Hb; discriminate Hb. }
+  specialize (G outs (mkHO 0 0 0 false false)). 
+  assert (P : 0 < h_nerr (fold_left hash_step outs (mkHO 0 0 0 false false)) + h_nsilent (fold_left hash_step outs (mkHO 0 0 0 false false)) + h_nio (fold_left hash_step outs (mkHO 0 0 0 false false))).
+  { apply G; [intro H; discriminate H | exact Hin]. }
+  destruct (_ =? 0) eqn:E; [apply Nat.eqb_eq in E; lia | reflexivity].
+Qed.
+(* an I/O error also makes the sync phase be skipped: nothing gets recorded synced by this run *)
+Theorem prehash_eio_skips outs : In HEio outs -> h_skip (hash_phase outs) = true.
+Proof.
+  unfold hash_phase. intro Hin.
+  assert (K : forall l a, h_skip a = true -> h_skip (fold_left hash_step l a) = true).
+  { induction l as [|y t IH]; intros a H; simpl; [exact H|]. apply IH. unfold hash_step. destruct (h_bailed a); [exact H|]. destruct y; simpl; auto. }
+  assert (G : forall l a, (h_bailed a = true -> h_skip a = true) -> In HEio l -> h_skip (fold_left hash_step l a) = true).
+  { induction l as [|y t IH]; intros a Ha H; [destruct H|]. simpl. destruct H as [->|H].
+    - apply K. unfold hash_step. destruct (h_bailed a) eqn:Eb; [apply Ha; reflexivity | reflexivity].
+    - apply IH; [|exact H]. unfold hash_step. destruct (h_bailed a) eqn:Eb; [intros _; apply Ha; reflexivity|]. destruct y; simpl; auto; intro Hb; try discriminate Hb; rewrite Eb in Hb; discriminate Hb. }
+  apply G; [intro H; discriminate H | exact Hin].
 Qed.
 
 (* ---------------------------------------------------------------------------------------------------------------- *)
